@@ -199,11 +199,12 @@ class Runner:
                 k_ = table_key(t_)
                 if k_ is not None:
                     base_keys.add(k_)
-        exc, res = None, None
+        exc, res, exc_rejection = None, None, False
         try:
             res = bound(*args, **kwargs)
         except Exception as e:  # noqa
             exc = type(e).__name__
+            exc_rejection = is_rejection(e)
         after_pre = None
         # ---- register new objects in the model's allocation order: the copy first, then a wrapper ----
         body, ret, wrap = None, 0, []
@@ -364,7 +365,20 @@ class Runner:
                 "exc": exc, "ret": ret, "copies": copies, "mutable_recv": mutable_recv, "same_obj": same_obj,
                 "args": [[p, i] for p, i in arg_idx], "chs": chs, "wrap": wrap, "delta": delta, "changes": changes,
                 "ret_cls": (qual(res) if exc is None and res is not None else None),
-                "res_render": (render(res) if exc is None else "!" + exc)}
+                "res_render": (render(res) if exc is None else "!" + exc), "rejection": exc_rejection}
+
+
+REJECTIONS = ("QueryException", "JoinException", "SetOperationException", "RollupException", "CaseException",
+              "FunctionException", "GroupingException", "DialectNotSupported")
+
+
+def is_rejection(e):
+    """the call was REJECTED by pypika (one of its own exception classes, or the AttributeError its once-only / wrong-kind
+    guards raise: "'Query' object has no attribute ...") - as opposed to a crash on ill-typed input (IndexError, TypeError, ...)"""
+    n = type(e).__name__
+    if n in REJECTIONS:
+        return True
+    return n == "AttributeError" and str(e).startswith(("'Query' object", "'DropQuery' object"))
 
 
 def table_key(t):
